@@ -25,6 +25,9 @@ class Contract:
     self.raises = dict(kw.pop('raises', {}))        # exc -> condition (iff)
     self.raises_ensures = dict(kw.pop('raises_ensures', {}))   # exc -> [post clauses on exceptional exit]
     self.may_raise = list(kw.pop('may_raise', ()))
+    # exc -> cond: may raise exc unless cond holds for EVERY element of the (pointwise viewed) array;
+    # a normal return implies cond for the generic element
+    self.raises_unless = dict(kw.pop('raises_unless', {}))
     self.loops = dict(kw.pop('loops', {}))
     self.modifies = list(kw.pop('modifies', ()))
     self.inline = kw.pop('inline', False)
